@@ -2,6 +2,8 @@
 package c32
 
 import (
+	"google.golang.org/grpc/metadata"
+	"sync"
 	"context"
 	"fmt"
 	"sort"
@@ -79,6 +81,16 @@ func nativeContext(q Q) *structpb.Struct {
 type world struct {
 	env  *e2.Env
 	memo map[string]string
+	// pinned: a newer (permissive) model is the store's latest; AuthZEN requests pin the model under test
+	// with the Openfga-Authorization-Model-Id header, the native requests name it in the request
+	pinned bool
+}
+
+func (w *world) ctx() context.Context {
+	if !w.pinned {
+		return context.Background()
+	}
+	return metadata.NewIncomingContext(context.Background(), metadata.Pairs(strings.ToLower(server.AuthorizationModelIDHeader), w.env.ModelID))
 }
 
 // native: class T/F/ERR of the native Check of the mapped request.
@@ -105,7 +117,7 @@ func evalClass(r *authzenv1.EvaluationResponse) string {
 }
 
 func (w *world) evaluation(q Q) string {
-	resp, err := w.env.S.Evaluation(context.Background(), &authzenv1.EvaluationRequest{StoreId: w.env.StoreID,
+	resp, err := w.env.S.Evaluation(w.ctx(), &authzenv1.EvaluationRequest{StoreId: w.env.StoreID,
 		Subject: subj(q.Subject, q.Props), Resource: res(q.Obj, q.Props), Action: act(q.Rel, q.Props), Context: e2.ReqCtx(q.Ctx)})
 	if err != nil {
 		return "ERR"
@@ -198,7 +210,7 @@ func (w *world) evaluations(e Evals) []string {
 		}
 		req.Evaluations = append(req.Evaluations, x)
 	}
-	resp, err := w.env.S.Evaluations(context.Background(), req)
+	resp, err := w.env.S.Evaluations(w.ctx(), req)
 	if err != nil {
 		return []string{"REQUEST-ERR"}
 	}
@@ -210,7 +222,7 @@ func (w *world) evaluations(e Evals) []string {
 }
 
 func (w *world) subjectSearch(o, rel, typ string, ctx *int) string {
-	resp, err := w.env.S.SubjectSearch(context.Background(), &authzenv1.SubjectSearchRequest{StoreId: w.env.StoreID,
+	resp, err := w.env.S.SubjectSearch(w.ctx(), &authzenv1.SubjectSearchRequest{StoreId: w.env.StoreID,
 		Resource: res(o, nil), Action: act(rel, nil), Subject: &authzenv1.SubjectFilter{Type: typ}, Context: e2.ReqCtx(ctx)})
 	if err != nil {
 		return "ERR"
@@ -224,7 +236,7 @@ func (w *world) subjectSearch(o, rel, typ string, ctx *int) string {
 }
 
 func (w *world) resourceSearch(s, rel, typ string, ctx *int) string {
-	resp, err := w.env.S.ResourceSearch(context.Background(), &authzenv1.ResourceSearchRequest{StoreId: w.env.StoreID,
+	resp, err := w.env.S.ResourceSearch(w.ctx(), &authzenv1.ResourceSearchRequest{StoreId: w.env.StoreID,
 		Subject: subj(s, nil), Action: act(rel, nil), Resource: &authzenv1.ResourceFilter{Type: typ}, Context: e2.ReqCtx(ctx)})
 	if err != nil {
 		return "ERR"
@@ -257,6 +269,8 @@ type Case struct {
 }
 
 var subjects = []string{"user:a", "user:*", "group:1", "doc:2"}
+
+const pinnedTag = "older model pinned by the model-id header, a permissive model is the latest"
 
 func diffClass(want, got string) string {
 	short := func(s string) string {
@@ -307,15 +321,18 @@ func check(r *core.Report, w *ref.World, endpoint string, want string, got strin
 	if c.Evals != nil {
 		sig = "authzen/" + endpoint + "/" + c.Evals.Variant + "/" + strings.TrimSpace(c.Evals.Semantic+" ") + ": lists differ"
 	}
-	r.Violate(sig, fmt.Sprintf("%s %s: native %s, AuthZEN %s (%s); model{%s} tuples{%s}", endpoint, what, want, got, c.Seen, w.M, e2.TuplesStr(w.Tuples)), c)
+	if w.Tag != "" {
+		sig += " [" + w.Tag + "]"
+	}
+	r.Violate(sig, fmt.Sprintf("%s %s: native %s, AuthZEN %s (%s); model{%s} tuples{%s} %s", endpoint, what, want, got, c.Seen, w.M, e2.TuplesStr(w.Tuples), w.Tag), c)
 }
 
 func sp(p Part) string {
 	return p.Subject + "|" + p.Obj + "|" + p.Rel + "|" + e2.CtxStr(p.Ctx)
 }
 
-func one(r *core.Report, o *core.Options, env *e2.Env, w *ref.World, nodes []e2.Node) {
-	ww := &world{env: env, memo: map[string]string{}}
+func one(r *core.Report, o *core.Options, env *e2.Env, w *ref.World, nodes []e2.Node, pinned bool) {
+	ww := &world{env: env, memo: map[string]string{}, pinned: pinned}
 	ctxs := kit.Contexts(w.Tuples)
 	var qs []Q
 	for _, rc := range ctxs {
@@ -535,7 +552,7 @@ func nodesFor(o *core.Options) []e2.Node {
 func Run(o *core.Options) int {
 	r := core.NewReport(o, "exploration",
 		"selected models x every tuple subset |T|<=2 x requests = (object,relation in {r0,r1,parent,member}) x AuthZEN-expressible subjects {user:a, user:*, group:1, doc:2} x request contexts {none,1,20 when T has a condition}. Per request: Evaluation vs native Check of subject 'type:id', resource 'type:id', action=relation, context=context (class T/F/ERR); the same through an Evaluations request without items; with conditions also Evaluation with subject/resource/action properties x (expected native context subject_x/resource_x/action_x). Per world: Evaluations batches in the variants items-complete, permitted-first, denied-first, top-level-decoys, subject/resource/action/context-from-top, items-state-differences-only x semantics {no options, execute_all, deny_on_first_deny, permit_on_first_permit}: response list vs the native Checks of the harness-resolved items, cut by the harness' own reading of the semantic. SubjectSearch vs ListUsers (filter type user/group/doc) and ResourceSearch vs ListObjects as sets. non-trivial = native answer not F / not empty / list containing T or ERR; distinct by (endpoint, model, tuples, request)")
-	r.Assume("memory datastore; experimental flag 'authzen'; AuthZEN requests carry no model header, so the latest model (the model under test) is used on both sides",
+	r.Assume("memory datastore; experimental flag 'authzen'; first pass: AuthZEN requests carry no model header, so the latest model (the model under test) is used on both sides; second pass (3 models in quick, 30 in thorough): a permissive model is written after the model under test, AuthZEN requests pin the model under test with the Openfga-Authorization-Model-Id header and the native requests name it",
 		"universe 2 users/2 groups/2 docs; rewrites of depth<=1; one condition cx(x:int):=x<10",
 		"userset subjects (group:1#member, ...) cannot be expressed in AuthZEN (subject.id must not contain '#') and are outside the request space",
 		"an item-level error of Evaluations is a response with decision=false and context.error; it is compared with a native Check error (class ERR)",
@@ -553,10 +570,31 @@ func Run(o *core.Options) int {
 	nodes := nodesFor(o)
 	var sampled atomic.Int32
 	kit.Sweep(r, models, kit.SweepOpts{K: 2, ServerOpts: serverOpts()}, func(env *e2.Env, w *ref.World) {
-		one(r, o, env, w, nodes)
+		one(r, o, env, w, nodes, false)
 		if len(w.Tuples) == 2 && sampled.Add(1) <= 3 {
 			r.Sample(map[string]any{"model": w.M.String(), "tuples": e2.TuplesStr(w.Tuples), "example": "Evaluation{subject:{type:user,id:a},resource:{type:doc,id:1},action:{name:r0}} vs Check(doc:1#r0@user:a)"})
 		}
+	})
+	// second pass: the model under test is NOT the latest model of the store; every AuthZEN request pins it
+	// with the model-id header and must still agree with the native request that names it
+	npin := 3
+	if o.Thorough() {
+		npin = 30
+	}
+	if npin > len(models) {
+		npin = len(models)
+	}
+	var latestWritten sync.Map
+	r.Set("models_with_pinned_older_model", npin)
+	kit.Sweep(r, models[:npin], kit.SweepOpts{K: 2, ServerOpts: serverOpts()}, func(env *e2.Env, w *ref.World) {
+		if _, done := latestWritten.LoadOrStore(env, true); !done {
+			if _, err := env.WriteModel(ref.Permissive()); err != nil {
+				panic(err)
+			}
+		}
+		r.Count("worlds_with_pinned_older_model", 1)
+		w.Tag = pinnedTag
+		one(r, o, env, w, nodes, true)
 	})
 	return r.Finish()
 }
@@ -580,6 +618,12 @@ func replay(o *core.Options, r *core.Report) int {
 	if c.World.U == nil {
 		c.World.U = ref.DefaultUniverse()
 	}
-	one(r, o, env, c.World, nodesFor(o))
+	if c.World.Tag == pinnedTag {
+		if _, err := env.WriteModel(ref.Permissive()); err != nil {
+			fmt.Println("write latest model:", err)
+			return 2
+		}
+	}
+	one(r, o, env, c.World, nodesFor(o), c.World.Tag == pinnedTag)
 	return r.Finish()
 }
